@@ -13,6 +13,8 @@ For every endpoint `X` modelled in `PvModel/Signers.lean` (the signer-relevant p
   smart-contract signers included;
 * `X_iff` — when no smart contract signs, the call is accepted exactly when those
   requirements hold.
+The characterisation for ALL inputs (smart-contract rule and the PROVENANCE rule of the stored
+lists as conjuncts, no `NoContracts`) is `X_accepts_iff` in `PvProofs/C10SmartContract.lean`.
 -/
 import PvProofs.Lemmas.SignersCallers
 
